@@ -106,6 +106,11 @@ func MinimizeProgram(p *Program, fails func(*Program) bool, budget int) *Program
 			func(c *Config) { c.SyncFull = false },
 			func(c *Config) { c.InitMeta = 0 },
 			func(c *Config) {
+				for _, it := range cur.Items {
+					if it.Reopen != nil && it.Reopen.Mode == 2 {
+						return // sizes given in pages: keep the page size
+					}
+				}
 				if c.PageSize > 1024 && (c.MaxPages == 0 || uint64(c.MaxPages)*1024 >= 65536) {
 					c.PageSize = 1024
 				}
